@@ -156,11 +156,20 @@ def execute(sc: dict) -> dict:
                     _remember(r, last_rec)
                 continue
             after = m.expected()
-            window = {"seq": seq, "t": t, "readings": readings, "before": before, "after": after, "calls": [],
-                      "active": {k: set(v) for k, v in active.items()}, "identical": _all_identical(readings, last_rec)}
+            if window is not None and window["t"] == t:
+                # frames of one instant form one window: the client works through them (and through the records of one
+                # frame) in order, but an answer it provoked half-way (error text request) can reach its buffer before the
+                # remaining records are processed, so a notification cannot be attributed to a single frame by position
+                window["readings"] = window["readings"] + readings
+                window["after"] = after
+                window["identical"] = window["identical"] and _all_identical(readings, last_rec)
+                window["frames"] += 1
+            else:
+                window = {"seq": seq, "t": t, "readings": readings, "before": before, "after": after, "calls": [], "frames": 1,
+                          "active": {k: set(v) for k, v in active.items()}, "identical": _all_identical(readings, last_rec)}
+                windows.append(window)
             for r in readings:
                 _remember(r, last_rec)
-            windows.append(window)
         elif kind == "sub.call":
             if window is not None:
                 window["calls"].append((f["k"], f["args"], seq))
